@@ -43,6 +43,9 @@ func podRevisionMatches(p *corev1.Pod, rev string) bool {
 }
 
 func (o *labelOracle) OnWrite(s *Sim, w *Write) {
+	if !o.sc.owns(w.Key) {
+		return
+	}
 	if w.Key.GK != gkPod || w.Actor != "br-ctrl" || w.New == nil || w.Old == nil {
 		return
 	}
@@ -167,6 +170,9 @@ func partitionLimit(p intstr.IntOrString, n int) int {
 }
 
 func (o *deployOracle) OnWrite(s *Sim, w *Write) {
+	if !o.sc.owns(w.Key) {
+		return
+	}
 	if w.Key.GK != gkRS || w.Actor != "deploy-ctrl" || w.New == nil {
 		return
 	}
